@@ -3,11 +3,11 @@ package main
 import (
 	"fmt"
 	"os"
-	"syscall"
-	"time"
 	"runtime/debug"
 	"sort"
 	"strings"
+	"syscall"
+	"time"
 
 	"verifharness/engine"
 )
@@ -28,7 +28,7 @@ type system interface {
 
 type bfsStats struct {
 	states, trans, maxDepth int
-	closed                   bool
+	closed                  bool
 }
 
 func histString(s system, hist []int) string {
